@@ -21,12 +21,13 @@ EXTENDS Scan
 
 TraceLog == ndJsonDeserialize("c11_trace.ndjson")
 
-VARIABLES l, fid, done2, frec, base
-tvars == <<vars, l, fid, done2, frec, base>>
+VARIABLES l, fid, done2, frec, base,
+          fby       \* the reports of the current input by uid (spec records)
+tvars == <<vars, l, fid, done2, frec, base, fby>>
 Rec == TraceLog[l]
 
 NoFile == [n |-> 0]
-TraceInit == InitC /\ l = 1 /\ fid = 0 /\ done2 = FALSE /\ frec = NoFile /\ base = <<>>
+TraceInit == InitC /\ l = 1 /\ fid = 0 /\ done2 = FALSE /\ frec = NoFile /\ base = <<>> /\ fby = <<>>
 
 RangeS(s) == {s[k] : k \in 1..Len(s)}
 \* report record of the spec from a projected real report
@@ -37,22 +38,35 @@ FileJobs(f) == [j \in 1..Len(f.shape) |-> SelectSeq([k \in 1..Len(f.reports) |->
 
 \* the tree's cmpDiagnostics as observed by EXEC (File.alldiags): all diagnostics (fix 1d0c953, F17) or, on a tree
 \* without the fix, the first one only
+\* (both arguments are already sorted by SortReports' first loop; evaluated lazily here - cmp.Or evaluates all seven
+\* comparisons and takes the first non-zero one, which is the same value)
 CmpDiagnosticsT(all, sa, sb) ==
   IF Len(sa) = 0 THEN 0 - 1 ELSE IF Len(sb) = 0 THEN 1
-  ELSE IF all THEN CmpSeqD(SortDiags(sa), SortDiags(sb), 1) ELSE CmpDiags(SortDiags(sa)[1], SortDiags(sb)[1])
+  ELSE IF all THEN CmpSeqD(sa, sb, 1) ELSE CmpDiags(sa[1], sb[1])
 CmpReportsT(all, a, b) ==
-  CmpOr(<<Cmp(a.path, b.path), Cmp(a.first, b.first), Cmp(a.last, b.last), Cmp(a.sev, b.sev),
-          Cmp(a.rep, b.rep), Cmp(a.sum, b.sum), CmpDiagnosticsT(all, a.diags, b.diags)>>)
+  IF a.path # b.path THEN Cmp(a.path, b.path)
+  ELSE IF a.first # b.first THEN Cmp(a.first, b.first)
+  ELSE IF a.last # b.last THEN Cmp(a.last, b.last)
+  ELSE IF a.sev # b.sev THEN Cmp(a.sev, b.sev)
+  ELSE IF a.rep # b.rep THEN Cmp(a.rep, b.rep)
+  ELSE IF a.sum # b.sum THEN Cmp(a.sum, b.sum)
+  ELSE CmpDiagnosticsT(all, a.diags, b.diags)
 RECURSIVE BubbleT(_, _, _)
 BubbleT(all, s, j) == IF j > 1 /\ CmpReportsT(all, s[j], s[j - 1]) < 0 THEN BubbleT(all, Swap(s, j, j - 1), j - 1) ELSE s
 RECURSIVE ISortT(_, _, _)
 ISortT(all, s, i) == IF i > Len(s) THEN s ELSE ISortT(all, BubbleT(all, s, i), i + 1)
-ProcessT(all, order) == Dedup(ISortT(all, [k \in 1..Len(CollectAll(order)) |-> [CollectAll(order)[k] EXCEPT !.diags = SortDiags(@)]], 2))
+ProcessT(all, order) ==
+  LET col == CollectAll(order)
+      pre == [k \in 1..Len(col) |-> [col[k] EXCEPT !.diags = SortDiags(@)]]
+      srt == pre IN
+  [k \in 1..Len(srt) |-> [r |-> srt[k], dup |-> FALSE, dups |-> <<>>]]
 
 \* why the sort key may fail to separate two reports of different jobs
 PairKind(all, a, b, reps) ==
-  LET c1 == CmpReportsT(all, a, b)
-      c2 == CmpReportsT(all, b, a)
+  LET sa == [a EXCEPT !.diags = SortDiags(@)]
+      sb == [b EXCEPT !.diags = SortDiags(@)]
+      c1 == CmpReportsT(all, sa, sb)
+      c2 == CmpReportsT(all, sb, sa)
       rn == reps[a.rep] IN
   IF RKey(a) = RKey(b) THEN (IF IsEqual(a, b) = IsEqual(b, a) THEN "ok" ELSE "merge-asymmetric:" \o rn)
   ELSE IF IsEqual(a, b) \/ IsEqual(b, a) THEN "merge-distinct:" \o rn
@@ -69,6 +83,7 @@ PremiseKinds(f) ==
 TFile ==
   /\ l <= Len(TraceLog) /\ Rec.ev = "File"
   /\ fid' = Rec.id /\ frec' = Rec /\ base' = <<>>
+  /\ fby' = [u \in 1..Rec.n |-> Rp(Rec.reports[u])]
   /\ IF PremiseKinds(Rec) = {} THEN TRUE ELSE PrintT(<<"PREMISE", Rec.id, ToJson(PremiseKinds(Rec))>>)
   /\ l' = l + 1 /\ UNCHANGED <<vars, done2>>
 
@@ -76,12 +91,11 @@ Sig(what) == [cfg |-> frec.cfg, rules |-> frec.rules, two |-> frec.two, what |->
 
 TOrder ==
   /\ l <= Len(TraceLog) /\ Rec.ev = "Order" /\ Rec.id = fid
-  /\ LET js == FileJobs(frec)
-         byUid == [u \in 1..frec.n |-> Rp(frec.reports[u])]
-         ord == [k \in 1..Len(Rec.order) |-> byUid[Rec.order[k]]]
-         \* per job, uids appear in emission order and exactly once
+  /\ LET ord == [k \in 1..Len(Rec.order) |-> fby[Rec.order[k]]]
+         \* every report exactly once, and per job in emission order (uids are numbered job by job in emission order)
          reachable == /\ Len(Rec.order) = frec.n /\ RangeS(Rec.order) = 1..frec.n
-                      /\ \A j \in 1..Len(js) : SelectSeq(ord, LAMBDA r : frec.reports[r.uid].job = j) = js[j]
+                      /\ \A a, b \in 1..Len(Rec.order) :
+                            (a < b /\ frec.reports[Rec.order[a]].job = frec.reports[Rec.order[b]].job) => Rec.order[a] < Rec.order[b]
          diffs == IF Rec.canon THEN {} ELSE {k \in 1..Len(base) : base[k] # Rec.h[k]}
      IN
      /\ base' = IF Rec.canon THEN Rec.h ELSE base
@@ -97,11 +111,11 @@ TOrder ==
              ELSE PrintT(<<"DRIFT", fid, ToJson([what |-> "Report/SortReports/Dedup", oid |-> Rec.oid, order |-> Rec.order,
                                                   expected |-> [k \in 1..Len(s) |-> s[k].r.cid], observed |-> Rec.final,
                                                   expdup |-> [k \in 1..Len(s) |-> s[k].dup], obsdup |-> Rec.dup])>>)
-  /\ l' = l + 1 /\ UNCHANGED <<vars, fid, done2, frec>>
+  /\ l' = l + 1 /\ UNCHANGED <<vars, fid, done2, frec, fby>>
 
 TBinFile ==
   /\ l <= Len(TraceLog) /\ Rec.ev = "BinFile"
-  /\ fid' = Rec.id /\ frec' = Rec /\ base' = <<>>
+  /\ fid' = Rec.id /\ frec' = Rec /\ base' = <<>> /\ fby' = <<>>
   /\ l' = l + 1 /\ UNCHANGED <<vars, done2>>
 
 TBin ==
@@ -113,12 +127,12 @@ TBin ==
         ELSE PrintT(<<"VIOL", fid, ToJson([cfg |-> frec.cfg, rules |-> frec.rules, two |-> frec.two, kinds |-> {},
                                            what |-> [binary |-> TRUE, outputs |-> diffs, race |-> Rec.race, workers |-> Rec.workers,
                                                      procs |-> Rec.procs, seed |-> Rec.seed]])>>)
-  /\ l' = l + 1 /\ UNCHANGED <<vars, fid, done2, frec>>
+  /\ l' = l + 1 /\ UNCHANGED <<vars, fid, done2, frec, fby>>
 
 TDone ==
   /\ l = Len(TraceLog) + 1 /\ ~done2
   /\ done2' = TRUE /\ PrintT(<<"DONE", l - 1>>)
-  /\ UNCHANGED <<vars, l, fid, frec, base>>
+  /\ UNCHANGED <<vars, l, fid, frec, base, fby>>
 
 TraceNext == TFile \/ TOrder \/ TBinFile \/ TBin \/ TDone
 TraceSpec == TraceInit /\ [][TraceNext]_tvars
